@@ -20,7 +20,7 @@ LEVEL = "fault_enumeration"
 RULE = (
     "scenarios: read(str path) of plain / BOM / latin-1 / wrapped / inner-~A files under default (chardet), "
     "autodetect_encoding=False (ad-hoc sniff) and explicit encoding=; read(pathlib.Path); write(path) with default, 1.2 "
-    "and wrap options; to_csv(path); write(fileobj) and to_csv(fileobj) with caller-supplied objects; input-induced "
+    "and wrap options; to_csv(path); write(fileobj) and to_csv(fileobj) with caller-supplied objects; two-call sequences on one LASFile (a path call that succeeds or fails, then a call with the caller's file object); input-induced "
     "failures (no sections, LiDAR magic, header error, reshape error, strict decoding error, missing file, write() "
     "raising after open: missing VERS / duplicated STEP, to_csv raising after open); for every scenario the clean run's "
     "proxied operation count N is measured and the call repeated with an injected OSError at operation k for k=1..N; "
@@ -122,8 +122,22 @@ WRITE_SCENARIOS = [
     ("to_csv:fileobj:bad-mnemonics", "to_csv", "read", {"mnemonics": [1, 2], "units_loc": "[]"}, "fileobj"),
 ]
 
+# two calls on the SAME LASFile: a path call (which may fail, by itself or by an injected fault) followed by a call
+# with a caller-supplied file object - whatever happened first, the caller's object stays open and nothing leaks
+SEQ_SCENARIOS = [
+    # name, first (method, las kind, kwargs), second method
+    ("seq:write-path-ok>write-fileobj", ("write", "read", {}), "write"),
+    ("seq:write-path-missing-vers>write-fileobj", ("write", "missing-vers", {}), "write"),
+    ("seq:write-path-bad-version>write-fileobj", ("write", "read", {"version": 3}), "write"),
+    ("seq:write-path-bad-version>to_csv-fileobj", ("write", "read", {"version": 3}), "to_csv"),
+    ("seq:to_csv-path-bad-dialect>to_csv-fileobj", ("to_csv", "read", {"delimiter": "toolong"}), "to_csv"),
+    ("seq:to_csv-path-bad-mnemonics>write-fileobj", ("to_csv", "read", {"mnemonics": [1, 2], "units_loc": "[]"}), "write"),
+    ("seq:to_csv-path-ok>to_csv-fileobj", ("to_csv", "read", {}), "to_csv"),
+]
+
 SCEN = {s[0]: ("read",) + s[1:] for s in READ_SCENARIOS}
 SCEN.update({s[0]: ("write",) + s[1:] for s in WRITE_SCENARIOS})
+SCEN.update({s[0]: ("seq",) + s[1:] for s in SEQ_SCENARIOS})
 
 
 def bounds(tier):
@@ -167,6 +181,33 @@ def run_once(name, inject_at):
             except BaseException as e:  # noqa - the exception object is kept alive on purpose
                 exc = e
             leaks = [(p.ident, p._f.name if hasattr(p._f, "name") else "?", p._f.mode if hasattr(p._f, "mode") else "?") for p in sess.open_handles()]
+    elif spec[0] == "seq":
+        _, first, second = spec
+        method, kind, kwargs = first
+        obj = make_las(kind)
+        if kind == "missing-vers":
+            pass
+        las = obj
+        path = os.path.join(d, "output.out")
+        path2 = os.path.join(d, "output2.out")
+        for pth in (path, path2):
+            if os.path.exists(pth):
+                os.remove(pth)
+        fo = open(path2, "w", newline="")
+        caller.append(fo)
+        with faults.Session(d, inject_at) as sess:
+            try:
+                getattr(obj, method)(path, **kwargs)
+            except BaseException as e:  # noqa
+                exc = e
+            # second call: a caller-supplied object; a file object lives outside the scratch dir proxies
+            try:
+                if kind == "missing-vers" and second == "write":
+                    obj.version.append(lasio.HeaderItem("VERS", "", 2.0, "restored"))
+                getattr(obj, second)(fo)
+            except BaseException as e2:  # noqa
+                exc = exc or e2
+            leaks = [(p.ident, getattr(p._f, "name", "?"), getattr(p._f, "mode", "?")) for p in sess.open_handles()]
     else:
         _, method, kind, kwargs, target = spec
         obj = make_las(kind)
